@@ -349,6 +349,74 @@ def stress(chk):
         raise vlib.Inconclusive("vacuous stress run: %s" % chk.parts["stress"])
 
 
+def deadlines(chk):
+    """Instances of DeadlineInterrupts (Lifecycle.tla, liveness cfgs): a blocked Read / Write must return a timeout-class error
+    when its deadline passes - whatever it is blocked behind."""
+    nocid = {"cidC": -1, "cidS": -1}
+    s12 = dict(ver="12", helloVerify=False, **nocid)
+    s13 = dict(ver="13", helloVerify=False, curvesC=[29], curvesS=[29], **nocid)
+    cases = []
+    for sname, sc in (("12", s12), ("13", s13)):
+        for side in "cs":
+            for setter in ("specific", "both"):
+                for late in (False, True):
+                    cases.append({"name": "%s/%s/read/none/%s/%s" % (sname, side, setter, "late" if late else "early"), "scen": sc, "side": side,
+                                  "call": "read", "blocker": "none", "deadline": 150, "setter": setter, "late": late})
+    for side in "cs":
+        for n in (1, 2, 3):
+            for setter in ("specific", "both"):
+                cases.append({"name": "13/%s/write/keyupdates%d/%s" % (side, n, setter), "scen": s13, "side": side, "call": "write",
+                              "blocker": "keyupdates", "updates": n, "deadline": 250, "setter": setter, "late": False})
+            cases.append({"name": "13/%s/read/keyupdates%d" % (side, n), "scen": s13, "side": side, "call": "read", "blocker": "keyupdates",
+                          "updates": n, "deadline": 250, "setter": "specific", "late": True})
+    wd = vlib.scratch("c16dl")
+    try:
+        inp, out = os.path.join(wd, "in"), os.path.join(wd, "out")
+        with open(inp, "w") as fh:
+            for c in cases:
+                fh.write(json.dumps(c) + "\n")
+
+        def once(sel):
+            with open(inp, "w") as fh:
+                for c in sel:
+                    fh.write(json.dumps(c) + "\n")
+            rc, txt = vlib.run_test(vlib.build("root"), "TestVerifC16Deadlines", {"VERIF_IN": inp, "VERIF_OUT": out}, timeout=600)
+            if rc != 0 or not os.path.exists(out):
+                raise vlib.Inconclusive("deadline harness failed: " + txt[-1500:])
+            return vlib.read_ndjson(out)
+        def fine(r):
+            # a call that was not blocked at all may simply succeed; a call that does not succeed must fail with a timeout-class
+            # error by the time the deadline (plus slack) has passed, and Close must still work afterwards
+            return r["returned"] and (r["err"] == "" or r["timeout"]) and r["closeOk"]
+        rows = once(cases)
+        bad = []
+        for c, r in zip(cases, rows):
+            if r.get("lab"):
+                raise vlib.Inconclusive("deadline case %s could not run: %s" % (c["name"], r["lab"]))
+            chk.evaluated(key="deadline:" + c["name"])
+            if not fine(r):
+                bad.append(c)
+        # scheduling-sensitive: a failing case is re-run alone twice before it counts
+        confirmed = []
+        for c in bad:
+            fails = 0
+            last = None
+            for _ in range(2):
+                last = once([c])[0]
+                if not fine(last):
+                    fails += 1
+            if fails == 2:
+                confirmed.append((c, last))
+        for c, r in confirmed:
+            what = ("a %s blocked behind %s did not return a timeout error when its deadline (%d ms) passed: returned=%s after %d ms, "
+                    "error %r, Close afterwards ok=%s" % (c["call"], c["blocker"], c["deadline"], r["returned"], r["elapsedMs"], r["err"], r["closeOk"]))
+            chk.violation({"kind": "deadline-ignored", "what": what, "deadline_case": c})
+        chk.parts["deadlines"] = {"cases": len(cases), "first_pass_failures": len(bad), "confirmed": len(confirmed)}
+        chk.traces(len(cases))
+    finally:
+        shutil.rmtree(wd, ignore_errors=True)
+
+
 def run(chk):
     import time
     t0 = time.time()
@@ -367,6 +435,7 @@ def run(chk):
     vlib.log("[c16] replay done at %.0fs" % (time.time() - t0))
     stress(chk)
     vlib.log("[c16] stress done at %.0fs" % (time.time() - t0))
+    deadlines(chk)
     chk.coverage["rule"] = ("schedules = distinct controllable-action sequences (user calls, peer datagrams, gate passages) of the TLC edge "
                             "scripts of 13 Lifecycle generation configs that contain a Close / close_notify / fatal alert / deadline, longest "
                             "first then sampled by seed; each is replayed for DTLS 1.2 and 1.3, client and server as endpoint under test, and "
@@ -386,6 +455,20 @@ def run(chk):
 
 def replay(chk, path):
     facts = json.load(open(path))
+    if "deadline_case" in facts:
+        wd = vlib.scratch("c16dlr")
+        try:
+            inp, out = os.path.join(wd, "in"), os.path.join(wd, "out")
+            open(inp, "w").write(json.dumps(facts["deadline_case"]) + "\n")
+            vlib.run_test(vlib.build("root"), "TestVerifC16Deadlines", {"VERIF_IN": inp, "VERIF_OUT": out}, timeout=300)
+            chk.evaluated(key="replay")
+            chk.evaluated(key=facts["deadline_case"]["name"])
+            for r in vlib.read_ndjson(out):
+                if not (r["returned"] and (r["err"] == "" or r["timeout"]) and r["closeOk"]):
+                    chk.violation(dict(facts, replayed=True), replay=path)
+        finally:
+            shutil.rmtree(wd, ignore_errors=True)
+        return
     if "case" in facts and facts["case"]:
         c = dict(facts["case"], id=0)
         rows, crashes, _ = run_batches(chk, vlib.build("root"), "TestVerifC16Scripts", [c], 1)
